@@ -22,7 +22,31 @@ type Obligation struct {
 	Trivial   bool   `json:"-"`
 }
 
-func (o Obligation) Key() string { return o.Rule + ":" + o.Construct }
+func (o Obligation) Key() string { return o.Rule + ":" + printableKey(o.Construct) }
+
+// printableKey: constructs may quote string constants of the code (escape sequences); control bytes
+// are written as \xNN so that keys can be printed, stored in JSON and compared as text.
+func printableKey(s string) string {
+	clean := true
+	for i := 0; i < len(s); i++ {
+		if s[i] < 0x20 || s[i] == 0x7f {
+			clean = false
+			break
+		}
+	}
+	if clean {
+		return s
+	}
+	var b strings.Builder
+	for i := 0; i < len(s); i++ {
+		if s[i] < 0x20 || s[i] == 0x7f {
+			fmt.Fprintf(&b, "\\x%02x", s[i])
+		} else {
+			b.WriteByte(s[i])
+		}
+	}
+	return b.String()
+}
 
 // KnownFinding is one entry of /verif/known_findings.json.
 type KnownFinding struct {
